@@ -356,7 +356,7 @@ def run_shard(acc, shard, nshards, seed, tier):
     from vf import runner
     from vf.gen.indicators import SOURCE_TYPES
     known = runner.known_signatures('C15')
-    kinds = ['walk', 'trend', 'downtrend', 'spikes', 'alternating', 'flatish', 'constant', 'monotone', 'walk', 'spikes', 'lattice', 'lattice', 'leading-zero-volume', 'gappy', 'gappy']
+    kinds = ['walk', 'trend', 'downtrend', 'spikes', 'alternating', 'flatish', 'constant', 'monotone', 'walk', 'spikes', 'lattice', 'lattice', 'leading-zero-volume', 'gappy', 'gappy', 'flat-middle']
     lens = [130, 200, 300, 600] if tier == 'quick' else [130, 200, 300, 600, 1500]
     cases = st.fixed_dictionaries(dict(kind=st.sampled_from(kinds), n=st.sampled_from(lens), seed=st.integers(0, 2 ** 31),
                                        scale=st.sampled_from([100.0, 100.0, 1e-3, 25000.0, 1e-6, 1e6]),
